@@ -89,3 +89,23 @@ add("C20", "exploration",
     "online checker over the hook event log of the real Manager (run/generation, runner and step events under one global sequence) + reference merge model of file and database configuration; restarts at random instants and at hook points",
     "File/database configuration mixes (name clashes with different contents, disabled entries, several sources per integration, unknown source in file or database) start the real Manager; the loaded tasks (source, integration, chain id, start, stop, batch, concurrency) are compared with an independent merge model; 1–4 restarts are issued one at a time at random instants, while a runner sits between its two transactions, right after the previous start-up signal, and after storing new integrations; the event log must never show two live runners or overlapping steps for one pair nor any event of a previous generation after Restart returned.",
     "Trusted: the build-tag-guarded event hooks (sequence numbers from one atomic counter); fakepg/simnode as in C01. Restarts are issued one at a time. Wall-clock only in watchdogs.", "DESIGN.md §7 C20")
+
+add("C11", "exploration",
+    "reference projection (values → typed cells, computed from the simulated chain and the independent ABI model) vs rows handed to COPY: direct Integration.Insert through the production destination with a recording connection (volume) + full pipeline every 41st case",
+    "Events with any mix and order of indexed/non-indexed × selected/unselected inputs (unselected indexed inputs before selected ones, all-indexed events = logs without data, data present but nothing selected), all integer widths uint8..uint256/int8..int256 with sign patterns {0,1,-1,min,max,random}, address/bool/bytesN/bytes/string, arrays (abi_idx), block fields in random column order under differing column names; every cell is compared with the reference value of the field or input it is bound to.",
+    PIPE_NOTE + " " + ABI_NOTE, "DESIGN.md §7 C11")
+
+add("C12", "exploration",
+    "reference filter predicate per item (per-filter result, and/or fold) vs emitted rows on the direct Insert path, and pipeline runs against a node that applies address/topic restrictions faithfully (pushdown must lose nothing); attribution of a wrong outcome to pushdown, a single filter, or the aggregation",
+    "Operators × value kinds of the documented matrix (contains/!contains on byte strings and strings; eq/ne on byte strings, strings, uint64, uint256; gt/lt on uint64, uint256), one or several arguments, filters on indexed and non-indexed inputs and on block fields incl. log_addr, both aggregations with 1–3 filters, values at/just below/just above the arguments, one-byte-off and fragment arguments, reference filters against pre-populated and integration-produced tables. Pipeline cases compare the table at quiescence with the projection, so a log that the source never served because of an over-restrictive eth_getLogs filter is a missing row.",
+    PIPE_NOTE + " String contains is membership in both shovel and the oracle; only arguments on which membership and substring agree are generated.", "DESIGN.md §7 C12")
+
+add("C15", "exploration",
+    "marker search over every SQL statement text the fake Postgres receives (simple queries and Parse), for every string-valued position of rich configurations replaced in turn by hostile strings, through the file lifecycle and the dashboard lifecycle; chain data carries its own marker",
+    "The configuration JSON tree is walked generically: each of ~314 string positions (76 path classes, file and dashboard) is replaced by 7 hostile strings and 2 controls; each variant runs decode → ValidateFix → Migrate → task construction → steps incl. a reorg deletion, reference lookups and notifications, or POST to the real SaveIntegration/SaveSource handlers → load → steps. A hostile marker may never appear in statement text (parameters and COPY data are exempt); a rejected configuration must not have produced a statement with the marker; the plain control must be accepted and run (vacuity guard).",
+    PIPE_NOTE + " ' desc'/' asc' suffixes are legitimate in table.index entries.", "DESIGN.md §7 C15")
+
+add("C16", "exploration",
+    "schema-fit monitor on the fake Postgres with PostgreSQL identifier, type and NULL-distinct unique semantics: first-pass COPY must succeed, different rows must not collide, re-inserting a block must collide, validation must reject selections without a column; shared tables, existing tables, reserved-word and mixed-case names",
+    "Integration sets (log/tx/trace shapes, with and without arrays, sharing a table or not, columns in any order, user-supplied or missing identity columns, tables pre-created by SQL or by an earlier smaller configuration, reserved-word and mixed-case column names) are migrated and indexed; then the pair's positions are deleted and the same blocks inserted again (must fail with 23505); columns are removed from the declaration (must be rejected by ValidateFix); the printed schema (config.DDL, union of shared tables) is applied to a second server. Two known findings about the single unique index per table are listed.",
+    PIPE_NOTE, "DESIGN.md §7 C16")
